@@ -41,6 +41,7 @@ type world struct {
 	ord    map[string]int // per-key call ordinals
 	holds  map[string]chan struct{}
 	ended  bool // run is over: every hold is open
+	endC   chan struct{} // closed at the very end of the run
 }
 
 type faultState struct {
@@ -532,6 +533,7 @@ func (ifc *wiface) dialFunc(mode system.DialerMode) func() (*system.DialContext,
 		}
 		w.mu.Unlock()
 		x.Gen = c.gen
+		x.S = mac.String()
 		w.log.Add(x)
 
 		ll, _ := netip.ParseAddr(ifc.spec.LL)
